@@ -682,6 +682,12 @@ def run_arith_case(case):
             x = r1 * case["coef"]
         elif case["aop"] == "sum":
             x = sum([r1, r2])
+        elif case["aop"] == "add0":          # the start value of sum(): r + 0, 0 + r, sum([r])
+            x = r1 + 0
+        elif case["aop"] == "radd0":
+            x = 0 + r1
+        elif case["aop"] == "sum1":
+            x = sum([r1])
         else:
             x = r1.copy()
     except Exception as e:  # noqa
@@ -838,13 +844,13 @@ def main(argv=None):
             c["side"] = "copy" if i % 2 == 0 else "orig"
             c["edits"] = gen_edits(rng, c, rng.randrange(4, 11 if quick else 25))
             frame_cases.append(c)
-        for i in range(100 if quick else 1000):
+        for i in range(128 if quick else 1280):
             c = gen_case(rng, "arith", small=True)
             ids = [r["id"] for r in c["net"]["rxns"]]
             c["r1"], c["r2"] = rng.choice(ids), rng.choice(ids)
-            c["aop"] = ["add", "sub", "mul", "sum", "rcopy"][i % 5]
+            c["aop"] = ["add", "sub", "mul", "sum", "rcopy", "add0", "radd0", "sum1"][i % 8]
             c["coef"] = rng.choice([2.0, -1.0, 0.5, -2.0])
-            c["detached"] = ["none", "both", "second", "first"][(i // 5) % 4]
+            c["detached"] = ["none", "both", "second", "first"][(i // 8) % 4]
             c["ctx"] = False
             arith_cases.append(c)
 
